@@ -199,15 +199,6 @@ class FlatColumn:
                 if self.length is None:
                     self.length = _length
 
-        # if we have a default value, parse it to the correct type and fail if we can't
-        if self.default:
-            try:
-                self.default = self.type.parse(self.default)
-            except Exception:
-                raise ValueError(
-                    f"Column '{self.name}' default value not compatible with '{self.type}'."
-                )
-
         # validate decimal properties
         if self.type == OrsoTypes.DECIMAL and self.precision is None:
             from decimal import getcontext
@@ -215,6 +206,23 @@ class FlatColumn:
             self.precision = getcontext().prec
         if self.type == OrsoTypes.DECIMAL and self.scale is None:
             self.scale = int(0.75 * self.precision)
+
+        # if we have a default value, parse it to the column's type (with the column's own
+        # length, precision, scale and element type) and fail if we can't
+        # (an untyped column has nothing to cast to)
+        if self.default is not None and self.type not in (0, OrsoTypes._MISSING_TYPE):
+            try:
+                self.default = self.type.parse(
+                    self.default,
+                    length=self.length,
+                    precision=self.precision,
+                    scale=self.scale,
+                    element_type=self.element_type,
+                )
+            except Exception:
+                raise ValueError(
+                    f"Column '{self.name}' default value not compatible with '{self.type}'."
+                )
 
     def __str__(self):
         return self.identity
